@@ -34,6 +34,23 @@ def kw(call: ast.Call, name: str) -> Optional[ast.expr]:
     for k in call.keywords:
         if k.arg == name:
             return k.value
+    # f(**opts) where `opts` is a local mapping built from constant keys (`opts = {"a": x}; opts["b"] = y`):
+    # the keyword is the entry of that mapping
+    for k in call.keywords:
+        if k.arg is None and isinstance(k.value, ast.Name):
+            fn = getattr(call, "_parent", None)
+            while fn is not None and not isinstance(fn, (ast.FunctionDef, ast.AsyncFunctionDef)):
+                fn = getattr(fn, "_parent", None)
+            if fn is None:
+                continue
+            try:
+                dd = dict_display(fn, k.value.id)
+            except Exception:
+                dd = None
+            if dd is not None:
+                for kk, vv in zip(dd.keys, dd.values):
+                    if kk is not None and isinstance(kk, ast.Constant) and kk.value == name:
+                        return vv
     return None
 
 
